@@ -49,7 +49,7 @@ def base_uri(entry):
 
 MUTS = ["same", "scheme_case", "userinfo", "host_suffix", "host_prefix", "port_add", "port_change", "path_extra", "dotseg", "pct_slash", "pct_tab_path",
         "pct_tab_host", "lead_space", "trail_space", "raw_tab", "extra_q", "blank_q", "dup_q", "reorder_q", "fragment", "pct_fragment", "params",
-        "trailing_slash", "pct_letter", "upper_host", "no_scheme", "backslash", "at_trick", "pct_q", "crlf", "double_slash", "port_zero", "bad_port", "empty"]
+        "empty_q", "trailing_slash", "pct_letter", "upper_host", "no_scheme", "backslash", "at_trick", "pct_q", "crlf", "double_slash", "port_zero", "bad_port", "empty"]
 
 
 def mutate(rng, uri, kind):
@@ -102,6 +102,8 @@ def mutate(rng, uri, kind):
         return uri + "%23frag"
     if kind == "params":
         return uri + ";x=1"
+    if kind == "empty_q":
+        return uri + ("&" if "?" in uri else "?")
     if kind == "trailing_slash":
         return uri + "/"
     if kind == "pct_letter":
@@ -129,7 +131,7 @@ def mutate(rng, uri, kind):
     return uri
 
 
-STATES = ["st", "\"><script>alert(1)</script>", "a&b=c", "x#y", "a b+c", "é中", "'onload='x", "%26", "</form>", "&amp;", "a=b&redirect_uri=https://evil", "\n", "<!--"]
+STATES = ["x\" autofocus onfocus=\"alert(1)", "\"", "a'b", "q\"q'q", "st", "\"><script>alert(1)</script>", "a&b=c", "x#y", "a b+c", "é中", "'onload='x", "%26", "</form>", "&amp;", "a=b&redirect_uri=https://evil", "\n", "<!--"]
 
 
 def cases(rng, tier):
@@ -149,7 +151,8 @@ def cases(rng, tier):
         out.append({"t": "uri", "client": cid, "uri": u, "kind": "combo"})
     for _ in range(60 * n):
         out.append({"t": "resp", "mode": rng.choice(["query", "fragment", "form_post", None]), "rt": rng.choice(["code", "code id_token", "id_token"]),
-                    "state": rng.choice(STATES) if rng.random() < 0.8 else common.rnd_text(rng, 12), "reg": rng.randrange(2)})
+                    "state": rng.choice(STATES) if rng.random() < 0.8 else common.rnd_text(rng, 12), "reg": rng.randrange(2),
+                    "variant": rng.choice([None, None, "empty_q", "scheme_case"])})
     return out
 
 
@@ -194,6 +197,8 @@ def impl(c):
         return {"r": "ok", "uri": pr["redirect_uri"]}
     # response delivery
     uri = base_uri(REG[WEB][c["reg"]])
+    if c.get("variant"):
+        uri = mutate(None, uri, c["variant"])       # a differently spelled but matching redirect_uri: the response must go exactly there
     args = dict(client_id=WEB, redirect_uri=uri, scope=["openid"], state=c["state"], response_type=c["rt"].split(" "), nonce="n0")
     if c["mode"]:
         args["response_mode"] = c["mode"]
@@ -335,13 +340,17 @@ def oracle(c, obs):
     else:
         if not body.startswith(uri):
             v.append({"cls": "target-changed"})
-        rest = body[len(uri):]
-        sep = rest[:1]
-        got = dict(parse_qsl(rest[1:], keep_blank_values=True))
+        sp = urlsplit(body)
+        # what a relying party's HTTP stack sees: the fragment, or the query minus what the registered URI already had
+        if obs["kind"] == "fragment":
+            pairs = parse_qsl(sp.fragment, keep_blank_values=True)
+        else:
+            pairs = parse_qsl(sp.query, keep_blank_values=True)
+            for kv in parse_qsl(urlsplit(uri).query, keep_blank_values=True):
+                if kv in pairs:
+                    pairs.remove(kv)
+        got = dict(pairs)
         issued = {k: (" ".join(x) if isinstance(x, list) else str(x)) for k, x in (obs["issued"] or {}).items()}
-        if "?" in uri:
-            # registered query comes first; issued parameters follow
-            pass
         if obs["issued"] is not None and got != issued:
             v.append({"cls": "delivered-params-differ", "got": got, "issued": issued})
         if got.get("state") != (c["state"] or None):
